@@ -88,7 +88,8 @@ BatchFailing(e) ==
         ConeOk(v) == \A i \in DOMAIN v : InRange(v[i]) /\ Near(v[i], e.zgt[i])
         IpOk(v) == \A i \in DOMAIN v : InRange(v[i])
     IN
-    IF Len(e.gt) # e.n \/ Len(e.zgt) # e.n THEN F("C06_OnePerPair", "gt")
+    IF ~e.frame_ok THEN F("C06_InputsUntouched", "frame")        \* arguments changed / an earlier result changed later
+    ELSE IF Len(e.gt) # e.n \/ Len(e.zgt) # e.n THEN F("C06_OnePerPair", "gt")
     ELSE IF ~AllIn(e.ang, OkLen) THEN F("C06_OnePerPair", "ang")
     ELSE IF ~AllIn(e.cone, OkLen) THEN F("C06_OnePerPair", "cone")
     ELSE IF ~AllIn(e.ip, OkLen) THEN F("C06_OnePerPair", "ip")
